@@ -92,7 +92,7 @@ def model_check(module, cfg, name=None, env=None, workers=16, timeout=3600, cove
     ex = list(extra)
     if coverage:
         ex += ["-coverage", "1"]
-    rc, out, wall = _run(module, cfg, md, env, workers, ex, timeout, heap)
+    rc, out, wall = _run(module, cfg, md, env, workers, ex, timeout, heap if workers > 1 else "2g")
     ok = "Model checking completed. No error has been found." in out or "Finished computing initial states" in out and rc == 0
     if rc != 0 and "is violated" not in out and "Error:" in out and "Invariant" not in out and "property" not in out.lower():
         raise TLCError(f"TLC failed on {module}/{cfg} (rc={rc}):\n" + out[-3000:])
